@@ -8,8 +8,10 @@ items are only tie-breakers.
 """
 import json
 import os
+import re
 
 from lib import c18_sym as S
+from lib import c19_util as IU
 from lib import hir as H
 from lib import tables as T
 
@@ -24,11 +26,14 @@ def run(F, R, tier):
     validators = r18_4(F, R, spec)
     r18_3(F, R, spec, validators)
     r18_5(F, R, spec)
+    r18_7(duke, R, spec)
     return ("A5 terminal tables of read_field_type/write_field_type against the JVMS grammar (all ASCII code points), position of V, "
             "255-dimension guard dominance, trailing-input rejection in the three parse(); A8 discipline for every from_inner_unchecked "
             "call site (106) incl. literal validation against an independent JVMS 4.2 predicate; truth-table equivalence of the five name "
             "predicates, of the validators of the seven name types and of the duke-macros checkers with the documented formulae (symbolic "
-            "evaluation of the program text, helpers inlined); TryFrom: unchecked constructor only under the validator's Ok; split/join helper guards")
+            "evaluation of the program text, helpers inlined); TryFrom: unchecked constructor only under the validator's Ok; split/join helper guards; "
+            "R18.7: the three parse() evaluated on every string over { I L a / ; [ ( ) V } up to length 4 plus grammar samples with all "
+            "single-character edits against a reference recogniser of the JVMS 4.3 grammar (acceptance and type structure)")
 
 
 # ------------------------------------------------------------------------------------ R18.1
@@ -308,6 +313,42 @@ class _WriterEval(T.Evaluator):
         return super().ev(n, env)
 
 
+class _JoinEval(_WriterEval):
+    """_WriterEval for string builders: every append is recorded with the string it goes to and whether it happens under a condition the
+    evaluation cannot decide; identity views between a name type and its inner string are transparent."""
+    VIEWS = ("into_inner", "as_inner", "as_java_str", "as_mut_inner", "as_inner_mut")
+    MUTATORS = ("pop", "truncate", "clear", "insert", "insert_str", "insert_java", "insert_java_str", "remove", "retain", "drain", "replace_range")
+
+    def __init__(self, inline=None):
+        super().__init__(inline=inline)
+        self.undecided = 0
+        for v in self.VIEWS:
+            self.calls[v] = lambda a: a[0] if a else None
+        self.calls["from_inner_unchecked"] = lambda a: T.V("unchecked", a[-1]) if a else None
+
+    def _rec(self, kind, args):
+        self.effects.append((kind, args[-1], args[0] if len(args) > 1 else None, self.undecided > 0))
+        return ("t", [])
+
+    def if_(self, n, env):
+        # is the condition decided?  (probe it first; the probe's own effects are dropped)
+        ne, nc = len(self.effects), len(self.callvals)
+        c = H.peel(n["cond"], refs=False)
+        if c.get("k") == "letexpr":
+            decided = T.match_pat(c["pat"], self.ev(c["init"], env), dict(env)) in (True, False)
+        else:
+            decided = self.ev(n["cond"], env) in (("b", True), ("b", False))
+        del self.effects[ne:]
+        del self.callvals[nc:]
+        if decided:
+            return super().if_(n, env)
+        self.undecided += 1
+        try:
+            return super().if_(n, env)
+        finally:
+            self.undecided -= 1
+
+
 def _bool_components(v):
     """Option/Result/bool-valued components of an abstract payload (struct / tuple-struct / tuple)."""
     out = []
@@ -471,23 +512,115 @@ def _owner_of(crate, b):
     return "::".join(segs)
 
 
+_MARKER_TRAITS = ("Sized", "MetaSized", "PointeeSized")
+
+
+def _canon_ty(t, tparams=None):
+    """Type string of a signature, independent of spelling that does not change the type: lifetimes are dropped (`&'a T`, `Foo<'a>`,
+    `Foo<'_>`: named, elided or anonymous) and a type parameter of the function itself is written by its bounds, so `fn f<R>(r: &R) where
+    R: Tr + ?Sized`, `fn f<R: Tr + ?Sized>(r: &R)` and `fn f(r: &(impl Tr + ?Sized))` are the same role."""
+    if not isinstance(t, str):
+        return t
+    if tparams:
+        rx = re.compile(r"(?<![A-Za-z0-9_:])(%s)(?![A-Za-z0-9_:])" % "|".join(re.escape(p) for p in sorted(tparams, key=len, reverse=True)))
+        t = rx.sub(lambda m: tparams[m.group(1)], t)
+    t = re.sub(r"\bfor<[^<>]*>\s*", "", t)
+    t = re.sub(r"&'[A-Za-z_][A-Za-z0-9_]*\s+", "&", t)
+    t = re.sub(r"'[A-Za-z_][A-Za-z0-9_]*\s*,\s*", "", t)
+    t = re.sub(r",\s*'[A-Za-z_][A-Za-z0-9_]*(?![A-Za-z0-9_'])", "", t)
+    t = re.sub(r"(?:::)?<'[A-Za-z_][A-Za-z0-9_]*>", "", t)
+    return t
+
+
+def _tparams_of(b):
+    """{name of a type parameter of the function itself (also the synthetic `impl Trait` ones): canonical `impl A + B [+ ?Sized]`}."""
+    by = {}
+    for x in b.get("bounds") or []:
+        by.setdefault(x["param"], []).append(x["trait"].rsplit("::", 1)[-1])
+    out = {}
+    for p, trs in by.items():
+        named = sorted(set(t for t in trs if t not in _MARKER_TRAITS))
+        if "Sized" not in trs:
+            named.append("?Sized")
+        out[p] = "impl " + " + ".join(named or ["Sized"])
+    return out
+
+
+def _canon_owner(owner):
+    """impl type (+ trait) of a method as it is; the module of a free function is reduced to its crate (moving a free function to another
+    module of the crate keeps its role; the number of sites per role stays limited, so an additional site is still reported)."""
+    owner = _canon_ty(owner)
+    last = owner.rsplit("::", 1)[-1]
+    if "<" in owner or " as " in owner or not last[:1].islower():
+        return owner
+    return owner.split("::", 1)[0]
+
+
+def _canon_role(owner, inputs, output, target, tparams=None):
+    return (_canon_owner(owner), tuple(sorted(_canon_ty(t, tparams) for t in (inputs or ()))), _canon_ty(output, tparams), target)
+
+
 def _role(crate, b, target):
-    return (_owner_of(crate, b), tuple(sorted(b.get("inputs") or ())), b.get("output"), target)
+    return _canon_role(_owner_of(crate, b), b.get("inputs") or (), b.get("output"), target, _tparams_of(b))
+
+
+def _users_index(crate):
+    """key of a function -> bodies of the crate that mention it (call it or take it as a value; closures belong to their parent body)."""
+    idx = {}
+    for u in crate.bodies:
+        if not isinstance(u.get("body"), dict):
+            continue
+        for n in H.walk(u["body"]):
+            k = n.get("k")
+            rec = n.get("callee") if k in ("call", "mcall") else n.get("res") if k == "path" else None
+            if isinstance(rec, dict) and rec.get("r") == "def" and rec.get("dk") in ("Fn", "AssocFn"):
+                for kk in (rec.get("key"), rec.get("inst_key")):
+                    if kk and kk != u["key"]:
+                        idx.setdefault(kk, {})[u["key"]] = u
+    return idx
+
+
+def _entry_for(crate, users, table, b, tshort, depth=0, seen=()):
+    """The reviewed-table entry that covers an unchecked construction of `tshort` in body b: the entry of b's own role, or - if b is a
+    private function (not visible outside its crate, not a trait method) - the one entry shared by every function of the crate that uses
+    b: the body of a reviewed function (or of a closure in it) moved into a private helper / nested fn is still that function's site."""
+    e = table.get(_role(crate, b, tshort))
+    if e is not None:
+        return e
+    if depth >= 3 or b["key"] in seen or b.get("dk") not in ("Fn", "AssocFn") or b.get("impl_trait"):
+        return None
+    if not (b.get("vis") or "").startswith("Restricted"):
+        return None
+    us = users().get(b["key"]) or {}
+    found = None
+    for u in us.values():
+        eu = _entry_for(crate, users, table, u, tshort, depth + 1, tuple(seen) + (b["key"],))
+        if eu is None or (found is not None and eu is not found):
+            return None
+        found = eu
+    return found
 
 
 def r18_2(F, R, spec):
     R.rule("R18.2", "every call of a generated `from_inner_unchecked` is (a) inside the generating macro (identity view of self.0, or the "
                     "TryFrom impls of R18.4), (b) a string literal in a const that an independent JVMS 4.2 predicate accepts, (c) a documented "
                     "closed conversion between already-checked types (frozen table keyed by the role of the site: owner, signature, "
-                    "constructed type), or (d) owned by another property's rule; anything else constructs a name type from unchecked data")
+                    "constructed type; a private helper used only by functions of one such role shares it), or (d) owned by another "
+                    "property's rule; anything else constructs a name type from unchecked data")
     table = {}
     for kind, label, owner, inputs, output, target, n, why in REVIEWED_SITES:
-        table[(owner, tuple(sorted(inputs)), output, target)] = {"kind": kind, "label": label, "n": n, "why": why, "found": 0}
+        table[_canon_role(owner, inputs, output, target)] = {"kind": kind, "label": label, "n": n, "why": why, "found": 0}
     n_sites = 0
     for cr, test in F.available():
         if cr == "fbr_entries" or test:
             continue
         c = F.crate(cr)
+        uidx = []
+
+        def users(c=c, uidx=uidx):
+            if not uidx:
+                uidx.append(_users_index(c))
+            return uidx[0]
         for b in c.bodies:
             for n in H.walk(b["body"]):
                 if n.get("k") not in ("call", "mcall") or H.callee_name(n) != "from_inner_unchecked":
@@ -512,7 +645,7 @@ def r18_2(F, R, spec):
                     R.inst("R18.2", "literal:%s=%r" % (key, lit), v is True, sp=n["sp"], got=lit,
                            detail="literal must satisfy the JVMS predicate of %s" % tshort)
                     continue
-                e = table.get(_role(c, b, tshort))
+                e = _entry_for(c, users, table, b, tshort)
                 if e is not None:
                     e["found"] += 1
                     extra = e["found"] > e["n"]
@@ -728,15 +861,189 @@ def r18_5(F, R, spec):
                got=sym.show_val(payload) if payload else None, nontrivial=False)
     j = duke.fn("from_inner_class")
     if R.anchor("R18.5", "fn from_inner_class", j):
-        pushes = [n for n in H.walk(j["body"]) if n.get("k") == "mcall" and n["name"] in ("push", "push_java_str", "push_str", "push_java")]
-        seq = [(p["name"], H.const_value(p["args"][0]) if p["name"] in ("push", "push_java") else (H.recv_root(p["args"][0]) or (None, None))[1]) for p in pushes]
-        pids = H.param_ids(j)
-        base = H.recv_root(pushes[0]["recv"]) if pushes else None
-        ok = (len(seq) == 2 and seq[0][0] in ("push", "push_java") and seq[0][1] == sep and seq[1][0] in ("push_java_str", "push_str")
-              and base is not None and H.origin_local(j["body"], base[0]) == pids[0]
-              and H.recv_root(pushes[1]["args"][0]) is not None and H.origin_local(j["body"], H.recv_root(pushes[1]["args"][0])[0]) == pids[1])
-        R.inst("R18.5", "join-shape", ok, sp=j["sp"], got=seq, expect="parent ++ '$' ++ inner_name")
+        # evaluated, not pattern-matched: what is appended to which string on the path taken, with helpers of the function inlined
+        # (nested fns, free fns of its module, other methods of the type) - the pushes may live in a helper
+        mod = j["path"].rsplit("::", 2)[0] if j.get("impl_ty") else j["path"].rsplit("::", 1)[0]
+        helpers = {b["key"]: b for b in duke.bodies if b["key"] != j["key"] and b.get("dk") in ("Fn", "AssocFn") and isinstance(b.get("body"), dict)
+                   and b.get("name") not in _JoinEval.VIEWS
+                   and (b["key"].startswith(j["key"] + "::") or (b.get("impl_ty") and b.get("impl_ty") == j.get("impl_ty") and not b.get("impl_trait"))
+                        or (b.get("dk") == "Fn" and b["path"].rsplit("::", 1)[0] == mod))}
+        ev = _JoinEval(inline=helpers)
+        ret = ev.run_fn(j, [T.sym("parent"), T.sym("inner_name")])
+        apps = [e for e in ev.effects if e[0] in ("push", "str", "loop")]
+        bad = sorted(set(H.callee_name(e[1]) for e in ev.effects if e[0] == "callnode" and H.callee_name(e[1]) in _JoinEval.MUTATORS))
+        recvs = []
+        for e in apps:
+            if e[0] != "loop" and e[2] not in recvs:
+                recvs.append(e[2])
+        pieces = None
+        if len(recvs) == 1 and not any(e[0] == "loop" or e[3] for e in apps) and not bad:
+            base = recvs[0]
+            own = [e[1] for e in apps]
+            if base == T.sym("parent"):
+                pieces = [base] + own
+            elif T.is_sym(base) and base[1].startswith(("new(", "with_capacity(", "default(")):
+                pieces = own
+        ok = pieces == [T.sym("parent"), ("s", sep), T.sym("inner_name")] and ret == T.V("unchecked", recvs[0])
+        got = [T.show(x) for x in pieces] if pieces is not None else (
+            ["%s%s %s onto %s" % ("if … " if len(e) > 3 and e[3] else "", e[0], T.show(e[1]) if e[0] != "loop" else "…", T.show(e[2]) if e[0] != "loop" and e[2] else "?")
+             for e in apps] + ["also: " + x for x in bad])
+        R.inst("R18.5", "join-shape", ok, sp=j["sp"], got=got, expect="parent ++ '$' ++ inner_name",
+               detail=None if ok else "the returned name must be exactly parent, one `$`, inner_name appended unconditionally to one string; returned: " + T.show(ret))
     R.floor("R18.5", 3)
+
+
+# ------------------------------------------------------------------------------------ R18.7 (the grammar, by evaluation)
+def _ref_field_type(s, i, spec):
+    """JVMS 4.3.2 FieldType at s[i:] -> (tree, next index) | None.  tree: 'I' | ('L', name) | ('[', dim, element)"""
+    dim = 0
+    while i < len(s) and s[i] == "[":
+        dim += 1
+        i += 1
+    if dim > spec["max_array_dimension"] or i >= len(s):
+        return None
+    c = s[i]
+    if c == "L":
+        j = s.find(";", i + 1)
+        if j < 0:
+            return None
+        name = s[i + 1:j]
+        if not _valid_for_type("ObjClassName", name, spec):
+            return None
+        el, i = ("L", name), j + 1
+    elif c in spec["field_type_terminals"]:
+        el, i = c, i + 1
+    else:
+        return None
+    return (("[", dim, el) if dim else el), i
+
+
+def _ref_parse(kind, s, spec):
+    """reference parse of a whole descriptor -> ("ok", tree) | ("err",).  field: tree; return: tree | None; method: ([trees], tree | None)"""
+    if kind == "field":
+        r = _ref_field_type(s, 0, spec)
+        return ("ok", r[0]) if r and r[1] == len(s) else ("err",)
+    if kind == "return":
+        if s == spec["void_terminal"]:
+            return ("ok", None)
+        r = _ref_field_type(s, 0, spec)
+        return ("ok", r[0]) if r and r[1] == len(s) else ("err",)
+    if not s.startswith("("):
+        return ("err",)
+    i, params = 1, []
+    while True:
+        if i < len(s) and s[i] == ")":
+            i += 1
+            break
+        r = _ref_field_type(s, i, spec)
+        if not r:
+            return ("err",)
+        params.append(r[0])
+        i = r[1]
+    rest = _ref_parse("return", s[i:], spec)
+    return ("ok", (params, rest[1])) if rest[0] == "ok" else ("err",)
+
+
+def _tree_of(v):
+    """abstract value of a parsed Type -> the reference's tree notation (None if it is not one)"""
+    if IU.is_v(v) and not v[2]:
+        return v[1]
+    if IU.is_v(v, "Object") and len(v[2]) == 1:
+        x = v[2][0]
+        while isinstance(x, IU.St) and len(x.f) == 1:
+            x = list(x.f.values())[0]
+        return ("L", x[1]) if isinstance(x, tuple) and x[0] == "s" else None
+    if IU.is_v(v, "Array") and len(v[2]) == 2 and isinstance(v[2][0], tuple) and v[2][0][0] == "i":
+        el = _tree_of(v[2][1])
+        return ("[", v[2][0][1], el) if el is not None and not (isinstance(el, tuple) and el[0] == "[") else None
+    return None
+
+
+def _parsed_of(kind, r):
+    """abstract result of parse() -> ("ok", tree) | ("err",) | ("?", text)"""
+    if IU.is_v(r, "Err"):
+        return ("err",)
+    if not (IU.is_v(r, "Ok") and len(r[2]) == 1 and isinstance(r[2][0], IU.St)):
+        return ("?", IU.show(r)[:120])
+    st = r[2][0]
+    vals = list(st.f.values())
+    if kind == "field" and len(vals) == 1:
+        t = _tree_of(vals[0])
+        return ("ok", t) if t is not None else ("?", IU.show(r)[:120])
+    if kind == "return" and len(vals) == 1 and IU.is_v(vals[0], "Some", "None"):
+        t = _tree_of(vals[0][2][0]) if vals[0][2] else None
+        return ("ok", t) if (t is not None or not vals[0][2]) else ("?", IU.show(r)[:120])
+    if kind == "method" and len(vals) == 2:
+        ps = [x for x in vals if isinstance(x, IU.Lst)]
+        rt = [x for x in vals if IU.is_v(x, "Some", "None")]
+        if len(ps) == 1 and len(rt) == 1:
+            pt = [_tree_of(x) for x in ps[0].items]
+            t = _tree_of(rt[0][2][0]) if rt[0][2] else None
+            if all(x is not None for x in pt) and (t is not None or not rt[0][2]):
+                return ("ok", (pt, t))
+    return ("?", IU.show(r)[:120])
+
+
+def r18_7(duke, R, spec):
+    R.rule("R18.7", "FieldDescriptorSlice::parse, ReturnDescriptorSlice::parse and MethodDescriptorSlice::parse, evaluated on the program text "
+                    "(bounded abstract interpretation, helpers of the crate followed) for every string over { I L a / ; [ ( ) V } up to "
+                    "length 4 and for grammar samples with every single-character deletion, insertion and substitution, accept exactly "
+                    "the strings of the JVMS 4.3 grammar (object names by the documented ObjClassName predicate, at most 255 dimensions) "
+                    "and yield the type structure the grammar assigns")
+    import itertools
+    parses = {}
+    for b in duke.fns("parse"):
+        it = b.get("impl_ty") or ""
+        for kind, nm in (("field", "FieldDescriptorSlice"), ("method", "MethodDescriptorSlice"), ("return", "ReturnDescriptorSlice")):
+            if it.endswith(nm) and not b.get("impl_trait"):
+                parses[kind] = b
+    sigma = "ILa/;[()V"
+    probes = []
+    for n in range(0, 5):
+        probes.extend("".join(t) for t in itertools.product(sigma, repeat=n))
+    samples = ["Ljava/lang/Object;", "[[La/b;", "[Z", "(ILa/b;[J)V", "(La;La;)La;", "()[[La/b/c;", "([La;[[I)La$b;", "(J)I", "D",
+               "[" * spec["max_array_dimension"] + "I", "[" * (spec["max_array_dimension"] + 1) + "I", "([" * 1 + "[" * spec["max_array_dimension"] + "La;)V"]
+    near = set(samples)
+    for smp in samples[:9]:
+        for i in range(len(smp) + 1):
+            for ch in ";L[/(V)a":
+                near.add(smp[:i] + ch + smp[i:])
+                if i < len(smp):
+                    near.add(smp[:i] + ch + smp[i + 1:])
+            if i < len(smp):
+                near.add(smp[:i] + smp[i + 1:])
+    probes.extend(sorted(near - set(probes)))
+    for kind in ("field", "return", "method"):
+        b = parses.get(kind)
+        if not R.anchor("R18.7", "fn %s::parse" % {"field": "FieldDescriptorSlice", "return": "ReturnDescriptorSlice", "method": "MethodDescriptorSlice"}[kind], b):
+            continue
+        bad, n_ok, unknown = [], 0, None
+        for text in probes:
+            want = _ref_parse(kind, text, spec)
+            try:
+                r = IU.Interp(duke, budget=200000).run(b, [IU.St(b["impl_ty"], {"0": IU.S(text)})])
+            except IU.Unknown as e:
+                unknown = (text, str(e)[:300])
+                break
+            except RecursionError:
+                unknown = (text, "evaluation recursion too deep")
+                break
+            got = _parsed_of(kind, r)
+            if got[0] == "ok":
+                n_ok += 1
+            if got != want:
+                bad.append({"input": text if len(text) <= 40 else text[:12] + "…(%d chars)" % len(text),
+                            "grammar": "rejects" if want[0] == "err" else want[1], "parse()": "Err" if got[0] == "err" else got[1]})
+                if len(bad) >= 6:
+                    break
+        if unknown is not None:
+            R.unrecognised("R18.7", "%s descriptor parse on %r" % (kind, unknown[0][:30]), unknown[1], sp=b["sp"])
+            continue
+        R.inst("R18.7", "grammar:%s-descriptor" % kind, not bad and n_ok > 0, sp=b["sp"], got=bad or None,
+               expect="accepts exactly the JVMS %s descriptors among %d probe strings (%d of them) with the grammar's type structure" % (kind, len(probes), sum(1 for t in probes if _ref_parse(kind, t, spec)[0] == "ok")),
+               detail="a string outside the grammar that parses (e.g. an object type whose `;` is missing at the end of the input), a string of the "
+                      "grammar that is refused, or a different structure")
+    R.floor("R18.7", 3)
 
 
 def thorough(F, R, repo):
